@@ -97,7 +97,7 @@ func buildStdReqs() []Req {
 			continue
 		}
 		seen[p] = true
-		for _, m := range []string{"GET", "POST", "", "BREW"} {
+		for _, m := range []string{"GET", "POST", "", "BREW", "PROPFIND"} {
 			out = append(out, Req{m, p})
 		}
 	}
@@ -619,6 +619,10 @@ func (mn mon) Run(sh drv.Shard, c *drv.Ctx) {
 	c.Add("slashless_paths_to_noroute", st.malformedAsNoRoute)
 }
 
+// request methods beyond the nine the router names: WebDAV extension methods are longer than any of
+// those, and a method token has no length limit
+var longMethod = strings.Repeat("LONGMETHOD", 30)
+
 var methods10 = []string{"GET", "HEAD", "POST", "PUT", "PATCH", "DELETE", "CONNECT", "OPTIONS", "TRACE", "*"}
 
 func randCase(r *rand.Rand) Case {
@@ -706,7 +710,7 @@ func randCase(r *rand.Rand) Case {
 		}
 		m := methods10[r.Intn(9)]
 		if r.Intn(20) == 0 {
-			m = []string{"", "BREW", "*", "get"}[r.Intn(4)]
+			m = []string{"", "BREW", "*", "get", "PROPFIND", "MKCALENDAR", "VERSION-CONTROL", longMethod}[r.Intn(8)]
 		}
 		cs.Reqs = append(cs.Reqs, Req{m, p})
 	}
